@@ -290,6 +290,10 @@ class Sched(object):
             rs = self._runnable()
             if me_runnable and me not in rs:
                 rs.append(me)
+            if not rs:
+                # a thread parked only for fairness ("spin": it kept finding its event set) is runnable by definition: it must
+                # never turn the state into an idle jump or an idle-final state
+                rs = [t for t in self.threads if t.state == "blocked" and t.park and t.park[0] == "spin"]
             if rs:
                 tids = sorted(t.tid for t in rs)
                 c = self.chooser.choose(me.tid, tids, kind)
@@ -817,6 +821,9 @@ class CEvent(object):
         if not self.quiet:
             s.yield_point("set")
             s.ev("set", s.name_of(self, "E"))
+        if s.cur is not None:
+            # a thread that sets the event itself (a completion callback it runs inline) is not busy-waiting for somebody else
+            s.spin.pop((s.cur.tid, id(self)), None)
         self._flag = True
 
     def clear(self):
